@@ -8,11 +8,11 @@
 //! image sizes in cells are obtained from the real code and sent with the case.
 use crate::util::*;
 use serde_json::{json, Value};
-use std::collections::{BTreeSet, HashMap};
+use std::collections::{BTreeSet, HashMap, HashSet, VecDeque};
 use std::io::Write;
 use surf_n_term::{
-    render::TerminalRenderer, Cell, Error, Face, FaceAttrs, FillRule, Glyph, Image, Path, Position, UnderlineStyle,
-    Size, SurfaceMut, SurfaceOwned, Terminal, TerminalCaps, TerminalCommand, TerminalEvent, TerminalSize,
+    render::TerminalRenderer, Cell, DecMode, Error, Face, FaceAttrs, FillRule, Glyph, Image, Path, Position, UnderlineStyle,
+    Size, SurfaceMut, SurfaceOwned, Terminal, TerminalAction, TerminalCaps, TerminalCommand, TerminalEvent, TerminalSize,
     TerminalWaker, RGBA,
 };
 
@@ -360,6 +360,9 @@ impl<'a> Namer<'a> {
                 let i = self.image(img, None);
                 (format!("unimg {} {} {}", i, p.row, p.col), json!(["image_erase", i, p.row, p.col]))
             }
+            TerminalCommand::DecModeSet { enable, mode: DecMode::SynchronizedOutput } => {
+                (format!("CSync {}", cbool(*enable)), json!(["sync", enable]))
+            }
             other => ("COther".to_string(), json!(["other", format!("{:?}", other)])),
         }
     }
@@ -527,7 +530,20 @@ fn drive(p: &Pools, h: usize, w: usize, clear: bool, ops: &[Op]) -> Option<Vec<V
     res.ok()
 }
 
+fn face_tables(p: &Pools) -> (String, String, String) {
+    let idx = |f: Face| p.faces.iter().position(|x| *x == f).unwrap_or(99);
+    (
+        clist((0..p.faces.len()).map(|i| format!("({}, {})", i, idx(look_of_space(p.faces[i]))))),
+        clist((0..p.faces.len()).map(|i| format!("({}, {})", i, idx(look_of_erased(p.faces[i]))))),
+        clist((0..p.faces.len()).filter(|i| !shows_on_blank(p.faces[*i])).map(|i| i.to_string())),
+    )
+}
+
 fn run(p: &Pools, input: &Value) -> Case {
+    if input["kind"].as_str() == Some("loop") {
+        let (fsp, fer, ers) = face_tables(p);
+        return run_loop(p, input, |chars| clist(chars.iter().map(|c| format!("({}, {})", c, char_width(*c)))), &fsp, &fer, &ers);
+    }
     let h = input["h"].as_u64().unwrap_or(1) as usize;
     let w = input["w"].as_u64().unwrap_or(1) as usize;
     let ops = ops_parse(&input["ops"]);
@@ -701,6 +717,304 @@ fn run_forced(
         json: j,
         tags: vec!["kind=forced".to_string(), format!("domain={}", if good { "in" } else { "out" })],
         nontrivial: observed.map(|o| !o[1].is_empty()).unwrap_or(false),
+    }
+}
+
+// ---------------------------------------------------------------- the render loop
+/// one iteration of Terminal::run_render as scripted by a case
+#[derive(Clone, Debug)]
+struct It {
+    accept: usize,          // chunks the tty takes during this poll
+    draw: Surf,             // what the handler draws
+    frame: bool,            // TerminalAction::Wait (true) or WaitNoFrame
+    pending: Option<usize>, // the answer of frames_pending(); None: the number of pending chunks
+    keep: usize,            // chunks at the front of the queue that survive frames_drop()
+}
+
+fn its_parse(v: &Value) -> Vec<It> {
+    v.as_array()
+        .map(|a| {
+            a.iter()
+                .map(|o| It {
+                    accept: o["accept"].as_u64().unwrap_or(0) as usize,
+                    draw: surf_parse(&o["cells"]),
+                    frame: o["frame"].as_bool().unwrap_or(true),
+                    pending: o["pending"].as_u64().map(|x| x as usize),
+                    keep: o["keep"].as_u64().unwrap_or(1) as usize,
+                })
+                .collect()
+        })
+        .unwrap_or_default()
+}
+
+fn its_json(its: &[It]) -> Value {
+    Value::Array(
+        its.iter()
+            .map(|i| json!({"accept": i.accept, "cells": surf_json(&i.draw), "frame": i.frame, "pending": i.pending, "keep": i.keep}))
+            .collect(),
+    )
+}
+
+/// A Terminal with an output queue of chunks: the commands executed between two polls form one
+/// chunk; at every poll the tty takes as many chunks as the script says; frames_pending() /
+/// frames_drop() behave like IOQueue::chunks_count / clear_but_last, or as scripted.
+struct LoopTerm {
+    size: TerminalSize,
+    caps: TerminalCaps,
+    its: Vec<It>,
+    idx: usize,                         // iteration in progress (advanced by poll)
+    cur: Vec<TerminalCommand>,          // commands since the last poll
+    dropped: bool,                      // frames_drop() was called since the last poll
+    npending: usize,                    // chunks in the queue
+    log: Vec<(bool, Vec<TerminalCommand>)>,
+}
+
+impl LoopTerm {
+    fn close_iteration(&mut self) {
+        let cmds = std::mem::take(&mut self.cur);
+        if !cmds.is_empty() {
+            self.npending += 1;
+        }
+        self.log.push((self.dropped, cmds));
+        self.dropped = false;
+    }
+}
+
+impl Write for LoopTerm {
+    fn write(&mut self, buf: &[u8]) -> std::io::Result<usize> {
+        Ok(buf.len())
+    }
+    fn flush(&mut self) -> std::io::Result<()> {
+        Ok(())
+    }
+}
+
+impl Terminal for LoopTerm {
+    fn execute(&mut self, cmd: TerminalCommand) -> Result<(), Error> {
+        self.cur.push(cmd);
+        Ok(())
+    }
+    fn poll(&mut self, _timeout: Option<std::time::Duration>) -> Result<Option<TerminalEvent>, Error> {
+        // flush: what was issued since the last poll is one chunk of the queue
+        if self.idx > 0 || !self.cur.is_empty() {
+            self.close_iteration();
+        }
+        let accept = self.its.get(self.idx).map(|i| i.accept).unwrap_or(0);
+        self.npending -= accept.min(self.npending);
+        self.idx += 1;
+        Ok(None)
+    }
+    fn size(&self) -> Result<TerminalSize, Error> {
+        Ok(self.size)
+    }
+    fn position(&mut self) -> Result<Position, Error> {
+        Ok(Position::new(0, 0))
+    }
+    fn waker(&self) -> TerminalWaker {
+        TerminalWaker::new(|| Ok(()))
+    }
+    fn frames_pending(&self) -> usize {
+        match self.its.get(self.idx.wrapping_sub(1)).and_then(|i| i.pending) {
+            Some(n) => n,
+            None => self.npending,
+        }
+    }
+    fn frames_drop(&mut self) {
+        let keep = self.its.get(self.idx.wrapping_sub(1)).map(|i| i.keep).unwrap_or(1);
+        self.npending = self.npending.min(keep);
+        self.dropped = true;
+    }
+    fn dyn_ref(&mut self) -> &mut dyn Terminal {
+        self
+    }
+    fn capabilities(&self) -> &TerminalCaps {
+        &self.caps
+    }
+}
+
+/// run the REAL Terminal::run_render with a scripted handler; one (dropped, commands) per iteration
+fn drive_loop(p: &Pools, h: usize, w: usize, its: &[It]) -> Option<Vec<(bool, Vec<(String, Value)>)>> {
+    let its_v = its.to_vec();
+    let res = std::panic::catch_unwind(std::panic::AssertUnwindSafe(move || {
+        let mut term = LoopTerm {
+            size: RecTerm::new(h, w).size,
+            caps: TerminalCaps::default(),
+            its: its_v.clone(),
+            idx: 0,
+            cur: vec![],
+            dropped: false,
+            npending: 0,
+            log: vec![],
+        };
+        let n = its_v.len();
+        let mut k = 0usize;
+        let r: Result<(), Error> = term.run_render(|_term, _event, mut surf| {
+            let it = &its_v[k];
+            for (r, row) in it.draw.iter().enumerate() {
+                for (c, cell) in row.iter().enumerate() {
+                    if r < h && c < w {
+                        surf.set(Position::new(r, c), to_cell(p, *cell));
+                    }
+                }
+            }
+            k += 1;
+            Ok(if k == n {
+                TerminalAction::Quit(())
+            } else if it.frame {
+                TerminalAction::Wait
+            } else {
+                TerminalAction::WaitNoFrame
+            })
+        });
+        r.expect("run_render");
+        term.close_iteration();
+        let mut namer = Namer::new(p);
+        term.log
+            .iter()
+            .enumerate()
+            .map(|(i, (d, cmds))| (*d, cmds.iter().map(|c| namer.cmd(c, &its_v[i].draw)).collect()))
+            .collect::<Vec<_>>()
+    }));
+    res.ok()
+}
+
+/// the image a cell displays, as numbered on the Coq side
+fn image_id(c: C) -> Option<u64> {
+    match c.k {
+        1 => Some(c.v as u64),
+        2 => Some(1000 + 16 * c.v as u64 + c.f as u64),
+        _ => None,
+    }
+}
+
+/// class DroppedImageErase: at some drop the terminal (after what survives) shows an image that the
+/// last issued frame does not have (mirrors Render/Loop.v stale_after_drop)
+fn stale_session(its: &[It], out: &[(bool, Vec<(String, Value)>)]) -> bool {
+    fn apply(pl: &mut HashSet<(u64, u64, u64)>, cmds: &[Value]) {
+        for c in cmds {
+            match c[0].as_str().unwrap_or("") {
+                "image" => {
+                    pl.insert((c[1].as_u64().unwrap_or(0), c[2].as_u64().unwrap_or(0), c[3].as_u64().unwrap_or(0)));
+                }
+                "image_erase" => {
+                    let i = c[1].as_u64().unwrap_or(0);
+                    if c.as_array().map(|a| a.len()).unwrap_or(0) >= 4 {
+                        pl.remove(&(i, c[2].as_u64().unwrap_or(0), c[3].as_u64().unwrap_or(0)));
+                    } else {
+                        pl.retain(|x| x.0 != i);
+                    }
+                }
+                _ => {}
+            }
+        }
+    }
+    let mut placed: HashSet<(u64, u64, u64)> = HashSet::new();
+    let mut q: VecDeque<Vec<Value>> = VecDeque::new();
+    let mut last: Option<&Surf> = None;
+    let mut stale = false;
+    for (it, (dropped, cmds)) in its.iter().zip(out.iter()) {
+        for _ in 0..it.accept.min(q.len()) {
+            let c = q.pop_front().unwrap();
+            apply(&mut placed, &c);
+        }
+        if !it.frame {
+            continue;
+        }
+        if *dropped {
+            q.truncate(it.keep);
+            let mut v = placed.clone();
+            for c in &q {
+                apply(&mut v, c);
+            }
+            for (i, r, c) in v {
+                let cell = last.and_then(|s| s.get(r as usize)).and_then(|row| row.get(c as usize)).copied();
+                if cell.and_then(image_id) != Some(i) {
+                    stale = true;
+                }
+            }
+        }
+        q.push_back(cmds.iter().map(|(_, j)| j.clone()).collect());
+        last = Some(&it.draw);
+    }
+    stale
+}
+
+#[allow(clippy::too_many_arguments)]
+fn run_loop(p: &Pools, input: &Value, widths_of: impl Fn(&BTreeSet<u32>) -> String, fsp: &str, fer: &str, ers: &str) -> Case {
+    let h = input["h"].as_u64().unwrap_or(1) as usize;
+    let w = input["w"].as_u64().unwrap_or(1) as usize;
+    let mut its = its_parse(&input["its"]);
+    if let Some(l) = its.last_mut() {
+        l.frame = true; // the session ends with TerminalAction::Quit, which renders a frame
+    }
+    let mut env = Env::new(p, h, w);
+    let mut chars: BTreeSet<u32> = BTreeSet::new();
+    chars.insert(0x20);
+    let mut glyph_ids: BTreeSet<(u32, u8)> = BTreeSet::new();
+    let mut good = true;
+    for it in &its {
+        for row in &it.draw {
+            for c in row {
+                match c.k {
+                    0 => {
+                        chars.insert(c.v);
+                    }
+                    2 => {
+                        glyph_ids.insert((c.v, c.f));
+                    }
+                    _ => {}
+                }
+            }
+        }
+        let k = overlap_kinds(&mut env, p, &it.draw, h, w);
+        if !in_domain(&mut env, p, &it.draw, h, w) || k.0 || k.1 {
+            good = false;
+        }
+    }
+    let mut isizes: Vec<String> =
+        env.isize.clone().iter().enumerate().map(|(i, (a, b))| format!("({}, ({}, {}))", i, a, b)).collect();
+    for (g, f) in &glyph_ids {
+        let (a, b) = env.glyph_size(p, *g, *f);
+        isizes.push(format!("({}, ({}, {}))", 1000 + 16 * (*g as u64) + *f as u64, a, b));
+    }
+    let observed = if its.is_empty() { Some(vec![]) } else { drive_loop(p, h, w, &its) };
+    let stale = good && observed.as_ref().map(|o| stale_session(&its, o)).unwrap_or(false);
+    let (impl_coq, impl_json, ndrops) = match &observed {
+        None => ("[(false, [COther])]".to_string(), json!("panic"), 0),
+        Some(out) => (
+            clist(out.iter().map(|(d, cs)| format!("({}, {})", cbool(*d), clist(cs.iter().map(|(s, _)| s.clone()))))),
+            Value::Array(out.iter().map(|(d, cs)| json!([d, Value::Array(cs.iter().map(|(_, j)| j.clone()).collect())])).collect()),
+            out.iter().filter(|(d, _)| *d).count(),
+        ),
+    };
+    let its_coq = clist(its.iter().map(|i| {
+        format!(
+            "itr {} {} {} {} {}",
+            i.accept,
+            surf_coq(&i.draw),
+            cbool(i.frame),
+            match i.pending { Some(n) => format!("(Some {})", n), None => "None".to_string() },
+            i.keep
+        )
+    }));
+    let mut j = json!({"kind": "loop", "h": h, "w": w, "its": its_json(&its)});
+    j["impl"] = impl_json;
+    if stale {
+        j["known_class"] = json!(["DroppedImageErase"]);
+    }
+    Case {
+        coq: format!(
+            "Loop {} {} {} {} {} {} {} {} {} {} {}",
+            h, w, widths_of(&chars), clist(isizes), fsp, fer, ers, its_coq, impl_coq, cbool(good), cbool(stale)
+        ),
+        json: j,
+        tags: vec![
+            "kind=loop".to_string(),
+            format!("loop-iterations={}", match its.len() { 0..=5 => "1-5", 6..=12 => "6-12", 13..=33 => "13-33", _ => "34+" }),
+            format!("loop-drops={}", match ndrops { 0 => "0", 1 => "1", _ => "2+" }),
+            format!("loop-stale={}", stale),
+        ],
+        nontrivial: ndrops > 0,
     }
 }
 
@@ -925,6 +1239,32 @@ fn gen_history(rng: &mut Rng, p: &Pools) -> Value {
     json!({"h": h0, "w": w0, "ops": ops_json(&ops)})
 }
 
+fn gen_loop(rng: &mut Rng, p: &Pools) -> Value {
+    let long = rng.chance(1, 6);
+    let h = 1 + rng.below(if long { 2 } else { 3 }) as usize;
+    let w = 1 + rng.below(if long { 4 } else { 7 }) as usize;
+    let mut g = Gen { p, env: Env::new(p, h, w), h, w, mode: rng.below(2) as u8, ood: false };
+    let n = if long { 34 + rng.below(6) as usize } else { 2 + rng.below(9) as usize };
+    // a long session lets the queue fill up to the real threshold; short ones script the answer
+    let stall_from = rng.below(4) as usize;
+    let mut prev = blank_surf(h, w);
+    let mut its = vec![];
+    for i in 0..n {
+        let s = g.next_surface(rng, &prev);
+        let frame = !rng.chance(1, 7);
+        if frame {
+            prev = s.clone();
+        }
+        let accept = if long {
+            if i < stall_from { 1 + rng.below(2) as usize } else if rng.chance(1, 25) { 1 } else { 0 }
+        } else if rng.chance(1, 2) { 0 } else { rng.below(4) as usize };
+        let pending = if long || !rng.chance(1, 3) { None } else { Some(if rng.chance(3, 4) { 33 + rng.below(3) as usize } else { 32 }) };
+        let keep = if long || rng.chance(1, 2) { 1 } else { rng.below(4) as usize };
+        its.push(It { accept, draw: s, frame, pending, keep });
+    }
+    json!({"kind": "loop", "h": h, "w": w, "its": its_json(&its)})
+}
+
 fn gen_forced(rng: &mut Rng, p: &Pools) -> Value {
     let h = 1 + rng.below(5) as usize;
     let w = 1 + rng.below(10) as usize;
@@ -947,12 +1287,18 @@ pub fn generate(rng: &mut Rng, n: usize, _tier: &str) -> Vec<Value> {
     // the shared generator's streams for neighbouring seeds are shifts of one another; re-seed
     // from its (well mixed) first output so that different VERIF_SEEDs give unrelated histories
     let mut rng = Rng(rng.next());
-    (0..n).map(|_| if rng.chance(1, 12) { gen_forced(&mut rng, &p) } else { gen_history(&mut rng, &p) }).collect()
+    (0..n)
+        .map(|_| match rng.below(12) {
+            0 => gen_forced(&mut rng, &p),
+            1 => gen_loop(&mut rng, &p),
+            _ => gen_history(&mut rng, &p),
+        })
+        .collect()
 }
 
 /// the operations before the first Draw of a surface with overlapping objects
 fn overlap_free_prefix(p: &Pools, input: &Value) -> Option<Value> {
-    if input["kind"].as_str() == Some("forced") {
+    if input["kind"].as_str().is_some() {
         return None;
     }
     let h0 = input["h"].as_u64().unwrap_or(1) as usize;
